@@ -145,6 +145,8 @@ pub struct Online {
     /// node -> virtual time at which its current incarnation entered the Raft loop
     loop_started: HashMap<u32, u64>,
     started_as_learner: BTreeSet<u32>,
+    /// node -> (t, role it changed to)
+    role_hist: HashMap<u32, Vec<(u64, i32)>>,
     pub watch: super::watchmon::WatchMon,
 }
 
@@ -222,6 +224,7 @@ impl Online {
             checkpoints: 0,
             loop_started: HashMap::new(),
             started_as_learner: BTreeSet::new(),
+            role_hist: HashMap::new(),
             watch: super::watchmon::WatchMon::default(),
         }
     }
@@ -340,6 +343,7 @@ impl Online {
             }
             Ev::RoleChange { node, from, to, term } => {
                 self.roles.insert(*node, (*to, *term));
+                self.role_hist.entry(*node).or_default().push((t, *to));
                 if *from == LEADER {
                     self.counters.step_downs += 1;
                 }
@@ -1022,8 +1026,16 @@ impl Online {
             .is_some_and(|a| a.iter().any(|x| x.0 == node));
         let backlog = self.commit_index.get(&node).cloned().unwrap_or(0)
             > self.last_applied.get(&(node, inc)).cloned().unwrap_or(0);
+        // candidate when the request arrived (it may have won an election since)
+        let is_candidate = self.roles.get(&node).is_some_and(|r| r.0 == 2)
+            || self.role_hist.get(&node).is_some_and(|h| h.iter().rev().find(|(rt, _)| *rt <= it).is_some_and(|(_, r)| *r == 2));
         if applied_here {
             kind.push_str(":applied-on-the-answering-node-but-never-answered");
+        } else if is_candidate {
+            // the node sits in vote rounds: its loop awaits the whole round (retries included)
+            // and, the election timer having expired meanwhile, starts the next one at once
+            // (tick has priority over client commands), so queued commands are never looked at
+            kind.push_str(":candidate-in-back-to-back-vote-rounds");
         } else if backlog {
             // committed entries are waiting for the answering node's state machine
             kind.push_str(":answering-node-apply-backlog");
